@@ -220,6 +220,14 @@ def main(argv: List[str]) -> int:
     run = Run("C17", "other", argv)
     mm = MetaModel.load(python_customizations=False)
     mm.null_optional_ok = False
+    from contracts import genhelpers as gh
+    from lib.helpers_verify import verify_helper_items
+    from lib.smtrun import SmtStats
+
+    stats = SmtStats()
+    w_, i_, fi_, c_, l_ = gh.items_null_contract(gh.TESTDATA_REL, "has_null_base_type")
+    if fi_ is not None:
+        verify_helper_items(run, stats, w_, i_, [(fi_, c_, l_)])
     n1, ok1 = envelope_variants_check(run, mm)
     model_path = os.path.join(REPO, "generator", "lsp.json")
     data = generate_all(model_path, len(mm.requests), len(mm.notifications))
@@ -251,8 +259,9 @@ def main(argv: List[str]) -> int:
     return run.finish(
         {
             "explanation": "run-time contract check: the real generator functions are executed for the committed model and every emitted vector's label is compared with an independent strict validity oracle; file-name shape, hash, >=1 True vector per message class and Python acceptance of True vectors are checked on all vectors; the constant generator functions (generate_for_base, *_variants) are evaluated exhaustively",
-            "obligations": n1 + res["vectors"],
-            "discharged": ok1 + res["vectors"] - res["mismatches"],
+            "obligations": n1 + res["vectors"] + stats.obligations,
+            "discharged": ok1 + res["vectors"] - res["mismatches"] + stats.discharged,
+            "smt": stats.coverage(),
             "evaluations": res["vectors"],
             "distinct_nontrivial": res["vectors"],
             "rule": "one evaluation = one emitted vector (distinct by content hash)",
